@@ -242,7 +242,7 @@ func labelCompound(c *Case, v *vh.Violation, gone func(*Case) bool) {
 		add("N01")
 	}
 	if n02Re.MatchString(t.Input) {
-		t.Input = n02Re.ReplaceAllString(t.Input, "<\\${1}${2}")
+		t.Input = n02Re.ReplaceAllString(t.Input, "${1}${2}")
 		add("N02")
 	}
 	if n04Re.MatchString(t.Input) && t.Registry != "none" {
